@@ -703,3 +703,175 @@ def split_or_pattern_guard_arms(f):
     if n:
         f.rewrites.append(('R4', f'{n} match arm(s) `P1 | P2 if G => B` split into one guarded arm per alternative (B verbatim)', ''))
     return f
+
+
+# ====================================================================================================================
+# iterator-pipeline compiler (R6): `SRC (.flat_map(|p| E) | .map(|p| E) | .copied() | .chain(I))* .collect()`  ->  nested loops
+# filling a fresh vector.  Closure bodies E are kept verbatim; a Vec-valued E at the end of a pipeline is appended as a whole.
+# ====================================================================================================================
+def _split_method_chain(expr):
+    """split `recv.m1(..).m2(..)` at depth 0 into [recv, ('m1', args), ('m2', args), ...]; recv may contain `::`, `&`, field accesses and calls"""
+    expr = expr.strip()
+    parts, depth, i, cur = [], 0, 0, ''
+    segs = []
+    while i < len(expr):
+        ch = expr[i]
+        if ch in '([{':
+            j = match_brace(expr, i)
+            cur += expr[i:j + 1]
+            i = j + 1
+            continue
+        if ch == '.' and depth == 0 and re.match(r'\.\s*[A-Za-z_]\w*\s*(::<[^>]*>)?\s*\(', expr[i:]):
+            segs.append(cur)
+            cur = ''
+            i += 1
+            continue
+        cur += ch
+        i += 1
+    segs.append(cur)
+    head = segs[0].strip()
+    calls = []
+    for s_ in segs[1:]:
+        s_ = s_.strip()
+        m = re.match(r'([A-Za-z_]\w*)\s*(::<[^>]*>)?\s*\(', s_)
+        o = m.end() - 1
+        c = match_brace(s_, o)
+        calls.append((m.group(1), s_[o + 1:c].strip()))
+    return head, calls
+
+
+_ITER_METHODS = {'iter', 'into_iter', 'flat_map', 'map', 'copied', 'chain', 'cloned'}
+
+
+def _is_iter_expr(expr):
+    try:
+        head, calls = _split_method_chain(expr)
+    except Exception:
+        return False
+    names = [c[0] for c in calls]
+    return bool(names) and all(n in _ITER_METHODS for n in names) and names[0] in ('iter', 'into_iter')
+
+
+class _Gen:
+    def __init__(self):
+        self.n = 0
+
+    def fresh(self, p):
+        self.n += 1
+        return f'{p}{self.n - 1}_'
+
+
+def _closure(arg):
+    m = re.match(r'\s*\|([^|]*)\|\s*(.*)$', arg, flags=re.S)
+    if not m:
+        raise ExtractError(f'closure expected in iterator pipeline: {arg[:40]}')
+    pat = re.sub(r':\s*&?\[.*\]|:\s*[\w&<>: ,\[\];]+$', '', m.group(1).strip()).strip()   # drop a type annotation on the parameter
+    body = m.group(2).strip()
+    if body.startswith('{') and match_brace(body, 0) == len(body) - 1:
+        inner = body[1:-1].strip()
+        if ';' not in inner:
+            body = inner
+    return pat, body
+
+
+def _bind(pat, elem_ref):
+    """bind a closure parameter to an element reference expression (elem_ref has type &T)"""
+    if pat.startswith('&'):
+        return f'let {pat[1:].strip()} = *{elem_ref};'
+    return f'let {pat} = {elem_ref};'
+
+
+def _compile_iter(expr, sink, g, out):
+    """sink(elem_ref_expr, is_ref) -> code consuming one element; returns code"""
+    head, calls = _split_method_chain(expr)
+    names = [c[0] for c in calls]
+    # split at the LAST top-level chain: (prefix).chain(I2)
+    if 'chain' in names:
+        k = len(names) - 1 - names[::-1].index('chain')
+        prefix = head + ''.join(f'.{n}({a})' for n, a in calls[:k])
+        rest = calls[k + 1:]
+        if rest:
+            raise ExtractError('adaptor after .chain(..) is outside the pipeline compiler')
+        return _compile_seg(prefix, sink, g) + ' ' + _compile_seg(calls[k][1], sink, g)
+    return _compile_seg(expr, sink, g)
+
+
+def _compile_seg(expr, sink, g):
+    expr = expr.strip()
+    if not _is_iter_expr(expr):
+        # a Vec-valued expression: append as a whole when the sink allows it
+        return sink(expr, 'vec')
+    head, calls = _split_method_chain(expr)
+    if 'chain' in [c[0] for c in calls]:
+        return _compile_iter(expr, sink, g, None)
+    src, adaptors = calls[0][0], calls[1:]
+    i = g.fresh('i')
+
+    def consume(elem, kind, rest):
+        # elem: expression; kind: 'ref' (a &T) or 'val'
+        if not rest:
+            return sink(elem, kind)
+        (name, arg), tail = rest[0], rest[1:]
+        if name in ('copied', 'cloned'):
+            return consume(f'(*{elem})' if kind == 'ref' else elem, 'val', tail)
+        pat, body = _closure(arg)
+        b = _bind(pat, elem) if kind == 'ref' else (f'let {pat[1:].strip() if pat.startswith("&") else pat} = {elem};')
+        if name == 'map':
+            return '{ ' + b + ' ' + consume(f'({body})', 'val', tail) + ' }'
+        if name == 'flat_map':
+            if tail:
+                # further adaptors apply to the flattened stream
+                inner_sink = lambda e, kd: consume(e, kd, tail)
+            else:
+                inner_sink = sink
+            return '{ ' + b + ' ' + _compile_seg(body, inner_sink, g) + ' }'
+        raise ExtractError(f'adaptor .{name}(..) is outside the pipeline compiler')
+
+    if src == 'iter':
+        return f'for {i} in 0..{head}.len() {{ let e_{i} = &{head}[{i}]; {consume(f"e_{i}", "ref", adaptors)} }}'
+    w = g.fresh('w')
+    return f'{{ let {w} = {head}; for {i} in 0..{w}.len() {{ let e_{i} = {w}[{i}]; {consume(f"e_{i}", "val", adaptors)} }} }}'
+
+
+def uniter_collect(f):
+    """R6: compile every `PIPELINE.collect()` whose pipeline uses flat_map / chain into loops over a fresh vector `v_`"""
+    n = 0
+    g = _Gen()
+    while True:
+        m = None
+        for mm in re.finditer(r'\.\s*collect\(\)', f.body):
+            # receiver: back to the statement start
+            j = mm.start()
+            depth, i = 0, j - 1
+            while i >= 0:
+                ch = f.body[i]
+                if ch in ')]}':
+                    depth += 1
+                elif ch in '([{':
+                    if depth == 0:
+                        break
+                    depth -= 1
+                elif ch in ';=' and depth == 0:
+                    break
+                i -= 1
+            recv = f.body[i + 1:j]
+            if re.search(r'\.\s*(flat_map|chain)\s*\(', recv) and _is_iter_expr(recv.strip()):
+                m = (i + 1, mm.end(), recv)
+                break
+        if not m:
+            break
+        st, en, recv = m
+        v = f'v{n}_'
+
+        def sink(elem, kind, v=v):
+            if kind == 'vec':
+                w = g.fresh('a')
+                return f'{{ let mut {w} = {elem}; {v}.append(&mut {w}); }}'
+            return f'{v}.push({elem});'
+        code = _compile_iter(recv.strip(), sink, g, None)
+        lead = recv[:len(recv) - len(recv.lstrip())]
+        f.body = f.body[:st] + lead + f'{{ let mut {v} = Vec::new(); {code} {v} }}' + f.body[en:]
+        n += 1
+    if n:
+        f.rewrites.append(('R6', f'{n} iterator pipeline(s) `SRC[.flat_map|.map|.copied|.chain]*.collect()` compiled to loops filling a fresh vector (closure bodies verbatim; Vec-valued tails appended whole)', ''))
+    return f
